@@ -63,7 +63,20 @@ class Ctx:
         self.solver_time += time.time() - t0
         self.solver.pop()
         if r == z3.unknown:
-            raise Unsupported("solver returned unknown on a branch feasibility query (%s)" % self.solver.reason_unknown())
+            # a busy machine can make a trivial query miss its time limit: once more, with a fresh solver and a
+            # longer limit, before the case is given up as undecided
+            why = self.solver.reason_unknown()
+            s2 = z3.Solver()
+            s2.set("timeout", int(self.timeout_ms) * 4)
+            for a in self.pc:
+                s2.add(a)
+            s2.add(c)
+            t0 = time.time()
+            r = s2.check()
+            self.solver_calls += 1
+            self.solver_time += time.time() - t0
+            if r == z3.unknown:
+                raise Unsupported("solver returned unknown on a branch feasibility query (%s; %s)" % (why, s2.reason_unknown()))
         return r == z3.sat
 
     def feasible(self, c):
